@@ -1,7 +1,7 @@
 (** C10 — Built paths are well-formed; operations on them are total and side-effect free.
     Property theorems only; each is closed by [exact] of a lemma proved elsewhere. *)
 From Coq Require Import ZArith QArith List Bool.
-From CV Require Import PathEnc.Enc PathEnc.EncProofs PathEnc.Builder PathEnc.BuilderProofs PathEnc.Scanner PathEnc.ScannerProofs.
+From CV Require Import PathEnc.Slices PathEnc.SlicesProofs PathEnc.Enc PathEnc.EncProofs PathEnc.Builder PathEnc.BuilderProofs PathEnc.Scanner PathEnc.ScannerProofs.
 Import ListNotations.
 
 (** cmdLen's exponent-mask trick, computed from the explicit IEEE-754 bit pattern of the command value,
@@ -65,3 +65,29 @@ Print Assumptions C10_walk_bwd_total.
 Theorem C10_validator_sound : forall d, wf_data d = true -> exists p, data_eq d (encode p) /\ wf p = true.
 Proof. exact wf_data_sound. Qed.
 Print Assumptions C10_validator_sound.
+
+(** Aliasing (slice model, PathEnc/Slices.v): Path.Split returns views d[i:j:j] of the receiver's array. An append to a slice whose
+    capacity equals its length allocates: EVERY other valid slice (the receiver, the sibling subpaths) shows the same cells
+    afterwards, and the result shows the old cells followed by the new ones. *)
+Theorem C10_append_full_cap_frame : forall h s xs t,
+  s_cap s = s_len s -> xs <> nil -> wfs h t -> view (fst (append h s xs)) t = view h t.
+Proof. exact append_full_cap_frame. Qed.
+Print Assumptions C10_append_full_cap_frame.
+
+Theorem C10_split_append_frame : forall h s bounds p xs t,
+  In p (split_at true s bounds) -> xs <> nil -> wfs h t -> view (fst (append h p xs)) t = view h t.
+Proof. exact split_append_frame. Qed.
+Print Assumptions C10_split_append_frame.
+
+Theorem C10_append_full_cap_view : forall h s xs,
+  s_cap s = s_len s -> xs <> nil -> view (fst (append h s xs)) (snd (append h s xs)) = (view h s ++ xs)%list.
+Proof. exact append_full_cap_view. Qed.
+Print Assumptions C10_append_full_cap_view.
+
+(** without the third index (d[i:j]) the same append overwrites the following subpath inside the receiver *)
+Theorem C10_split_unlimited_refuted :
+  exists h s bounds p q xs,
+    split_at false s bounds = (p :: q :: nil)%list /\ wfs h s /\ wfs h q /\ xs <> nil /\
+    view (fst (append h p xs)) s <> view h s /\ view (fst (append h p xs)) q <> view h q.
+Proof. exact split_unlimited_refuted. Qed.
+Print Assumptions C10_split_unlimited_refuted.
